@@ -35,6 +35,7 @@ type HarnessSpec struct {
 	What    string
 	TimeoutMs int
 	Overrides map[string]string
+	OnlyLabels []string // when set, assertion labels outside this list belong to another property and are not reported here
 }
 
 type PropSpec struct {
@@ -132,6 +133,13 @@ func runCmd(args []string) {
 			}
 			maxPaths, secs = h.ThorPaths, h.ThorSecs
 		}
+		if secs == 0 {
+			// every harness has a wall budget; running out of it is reported as non-exhaustive coverage, never as a hang
+			secs = 420
+			if *tier == "thorough" {
+				secs = 2400
+			}
+		}
 		cfg := &gosym.HarnessCfg{Pkg: P.Module + "/" + h.Pkg, Func: h.Func, Workers: *workers, Params: params,
 			Opts: h.Opts, Overrides: h.Overrides, MaxPaths: maxPaths, Deadline: time.Duration(secs) * time.Second, TimeoutMs: h.TimeoutMs}
 		if *tier == "thorough" && cfg.TimeoutMs == 0 {
@@ -166,6 +174,15 @@ func runCmd(args []string) {
 		sort.Strings(sigs)
 		for _, s := range sigs {
 			v := hr.Res.Violations[s]
+			if len(hr.Spec.OnlyLabels) > 0 && v.Kind == "assert" {
+				keep := false
+				for _, l := range hr.Spec.OnlyLabels {
+					keep = keep || l == v.Label
+				}
+				if !keep {
+					continue
+				}
+			}
 			h := sha1.Sum([]byte(s))
 			v.ReplayFile = filepath.Join(verifDir, "replay", spec.ID, fmt.Sprintf("%s-%x.json", v.Harness, h[:6]))
 			rf := map[string]interface{}{"property": spec.ID, "pkg": hr.Spec.Pkg, "harness": v.Harness, "kind": v.Kind, "label": v.Label, "msg": v.Msg, "tags": v.Tags, "vals": v.Vals, "params": hr.Params, "sig": v.Sig}
